@@ -165,7 +165,7 @@ def run_case(seed, dynamic=False, family=None):
         cap = max(600, 60 + 14 * (cfg["max_retries"] + 1) * len(all_combos(full)))
         for _ in range(cap):
             if len(stopped) == W: break
-            if not dynamic and rng.random() < 0.03 and not held:
+            if rng.random() < (0.03 if not dynamic else 0.05) and not held:
                 o.save(); o = mk(); o.reload(); ops.append(("reload",)); obs.append((("none",), snap())); continue
             w = rng.randrange(W); tn = "w%d" % w
             if tn in held and rng.random() < 0.7:
